@@ -136,4 +136,28 @@ def endpointsForSubselector (all : List Slice) (bnum : Nat) (svc : Svc) (sub : L
         eps.flatMap fun e => (e.addrs.filter (· = p.ip)).map fun _ => joinHostPort p.ip tp
       .ok (dedupe addrs)
 
+/-! ### the glue: every backend / upstream of one resource is resolved on its own
+
+`createIngressEx`, `createVirtualServerEx`, `createTransportServerEx` walk the backends (default backend, then rules and paths;
+upstreams with their backups) and store, per backend, the server list of *that* backend's Service and port; any failure — no such
+Service, no EndpointSlices, no matching port — leaves the list empty. `cip`: nginx.org/use-cluster-ip on an Ingress. -/
+
+structure Backend where
+  svc : String
+  port : Nat
+  deriving DecidableEq, Repr, Inhabited
+
+def resolveOne (isPlus cip : Bool) (all : List Slice) (svcs : List (Svc × String)) (pods : List Pod) (b : Backend) : List String :=
+  match svcs.find? (fun s => s.1.name = b.svc) with
+  | none => []
+  | some (svc, clusterIP) =>
+    if cip && !svc.external then [joinHostPort clusterIP b.port]
+    else match endpointsForBackend isPlus all "" b.port svc pods with
+      | .ok l => l
+      | .error _ => []
+
+def resolveAll (isPlus cip : Bool) (all : List Slice) (svcs : List (Svc × String)) (pods : List Pod) (bs : List Backend) :
+    List (List String) :=
+  bs.map (resolveOne isPlus cip all svcs pods)
+
 end Nic.Eps
